@@ -184,6 +184,100 @@ func runC10(p *core.Prog, r *core.Result) {
 				dl = append(dl, k)
 			}
 			sort.Strings(dl)
+			// ... and from the *whole* path: a helper of the module that returns a truncation of its string argument
+			// (s[:i], directly or through another helper) is lossy; the path must also reach the directory name
+			// without passing through one
+			var truncates func(h *ssa.Function, depth int) bool
+			truncates = func(h *ssa.Function, depth int) bool {
+				if h == nil || !core.InModule(h) || h.Blocks == nil || depth > 2 {
+					return false
+				}
+				lossy := false
+				for _, ret := range core.ReturnsOf(h) {
+					for _, rv := range core.RetVals(ret) {
+						if bt, ok := rv.Type().Underlying().(*types.Basic); !ok || bt.Info()&types.IsString == 0 {
+							continue
+						}
+						for x := range core.BackwardSlice(rv, core.SliceOpts{Stores: true}) {
+							switch y := x.(type) {
+							case *ssa.Slice:
+								if y.High != nil {
+									if _, isPrm := y.X.(*ssa.Parameter); isPrm {
+										lossy = true
+									}
+								}
+							case *ssa.Call:
+								if truncates(core.Callee(y), depth+1) {
+									lossy = true
+								}
+							}
+						}
+					}
+				}
+				return lossy
+			}
+			dWhole := map[string]bool{}
+			{
+				// same slice as paramDeps, but stopping at lossy helpers
+				spill := map[ssa.Value]*ssa.Parameter{}
+				for _, f := range core.WithAnons(fp) {
+					core.Instrs(f, func(in ssa.Instruction) {
+						if st, ok := in.(*ssa.Store); ok {
+							if prm, ok := st.Val.(*ssa.Parameter); ok {
+								if a, ok := st.Addr.(*ssa.Alloc); ok {
+									spill[a] = prm
+								}
+							}
+						}
+					})
+				}
+				for x := range core.BackwardSlice(dirV, core.SliceOpts{Stores: true, ThroughCall: func(c *ssa.Call) bool { return !truncates(core.Callee(c), 0) }}) {
+					switch y := x.(type) {
+					case *ssa.FieldAddr:
+						if prm, ok := spill[y.X]; ok {
+							_, fld := core.FieldOf(y)
+							dWhole[prm.Name()+"."+fld] = true
+						}
+					case *ssa.Field:
+						if prm, ok := y.X.(*ssa.Parameter); ok {
+							_, fld := core.FieldOf(y)
+							dWhole[prm.Name()+"."+fld] = true
+						}
+					}
+				}
+			}
+			// alternative: the truncated part is redundant because, before the cache is probed, the major version of
+			// the requirement's version has been checked against the suffix of its path (the mismatch edge returns)
+			validated := false
+			var statCall ssa.Instruction
+			for _, c := range core.Calls(fp) {
+				if core.IsCallTo(c, "os", "Stat") {
+					statCall = c.(ssa.Instruction)
+				}
+			}
+			if statCall != nil {
+				validated = p.FactsAt(statCall).Find(func(cv ssa.Value, val bool) bool {
+					b, ok := cv.(*ssa.BinOp)
+					if !ok || !((b.Op == token.EQL && val) || (b.Op == token.NEQ && !val)) {
+						return false
+					}
+					fromVersionMajor := func(x ssa.Value) bool {
+						return core.DependsOn(x, core.SliceOpts{Stores: true, ThroughCall: func(*ssa.Call) bool { return true }}, func(y ssa.Value) bool {
+							c, ok := y.(*ssa.Call)
+							return ok && core.IsCallTo(c, "golang.org/x/mod/semver", "Major") && paramDeps(fp, c.Call.Args[0])["p.Version"]
+						})
+					}
+					fromPathSuffix := func(x ssa.Value) bool {
+						return paramDeps(fp, x)["p.Path"] && !fromVersionMajor(x)
+					}
+					return fromVersionMajor(b.X) && fromPathSuffix(b.Y) || fromVersionMajor(b.Y) && fromPathSuffix(b.X)
+				})
+			}
+			how := "the whole project path (including a major-version suffix) enters the cache directory name"
+			if !dWhole["p.Path"] && validated {
+				how = "the path is truncated in the cache directory name, but the cache is probed only after the major version of the requirement's version was found equal to the path's suffix: (unversioned path, version) is then injective"
+			}
+			r.Check(dWhole["p.Path"] || validated, "R10.1", "internal/mvs.(*Resolver).FetchProject#cache-dir-whole-path", p.Pos(fp.Pos()), how, "the project path enters the cache directory name only through a helper that truncates it (the major-version suffix is dropped): the requirements r@v2 v2.1.0 and r v2.1.0 share one directory, so a mis-declared requirement that fails with a cold cache resolves once the other has been downloaded - the build list depends on the state of the download cache")
 			r.Check(covered("p.Path", d) && covered("p.Version", d), "R10.1", "internal/mvs.(*Resolver).FetchProject#cache-dir", p.Pos(fp.Pos()), "the on-disk cache directory is derived from both the project path and the version ("+strings.Join(dl, ", ")+")", "the on-disk cache directory does not depend on both path and version: a warm cache answers with another version's sources")
 		}
 	}
